@@ -123,7 +123,8 @@ func (h *Handler) delete(lease *Lease) {
 
 // allocIPOffer allocates a free IP to the lease entry
 func (h *Handler) allocIPOffer(lease *Lease, reqIP netip.Addr) error {
-	if reqIP.Is4() {
+	// the requested address is only honoured when it is a host address of the client's subnet
+	if reqIP.Is4() && lease.subnet.LAN.Contains(reqIP) && reqIP != lease.subnet.LAN.Addr() && reqIP != lease.subnet.broadcast {
 		if l := h.findByIP(reqIP); l == nil || l.State == StateFree || bytes.Equal(l.ClientID, lease.ClientID) {
 			if h.session.FindIP(reqIP) == nil {
 				lease.IPOffer = reqIP
